@@ -145,6 +145,7 @@ ensures
     if with_lemmas:
         U.raw(open(__file__.replace('units/types.py', 'contracts/types.lemmas.rs')).read(), note='lemmas')
     U.trusted_decl = []
+    U.file(T).guard_rest('not under contract in this unit; text pinned (contracts/trusted_hashes.json)')
     U.assumed_dep = [
         'std::cmp::max::<u32> returns the larger argument (assume_specification)',
         'boolenum derive: From<bool> for IsConst maps true->True, false->False (external_body)',
